@@ -88,6 +88,8 @@ inductive V where
   | none
   | undef
   | seq (xs : List V)
+  /-- map with string keys (kept sorted by the constructors of the program model) -/
+  | map (kvs : List (String × V))
   deriving Inhabited
 
 def natDigits (n : Nat) : List Char :=
@@ -124,10 +126,15 @@ def V.repr : V → TStr
   | .none => ofData "None"
   | .undef => ofData "undefined"
   | .seq xs => ofTmpl "[" ++ V.reprL xs ++ ofTmpl "]"
+  | .map kvs => ofTmpl "{" ++ V.reprM kvs ++ ofTmpl "}"
 def V.reprL : List V → TStr
   | [] => []
   | [x] => x.repr
   | x :: y :: xs => x.repr ++ ofTmpl ", " ++ V.reprL (y :: xs)
+def V.reprM : List (String × V) → TStr
+  | [] => []
+  | [(k, v)] => pyRepr (ofData k) ++ ofTmpl ": " ++ v.repr
+  | (k, v) :: q :: kvs => pyRepr (ofData k) ++ ofTmpl ": " ++ v.repr ++ ofTmpl ", " ++ V.reprM (q :: kvs)
 end
 
 /-- `Display` of a value (`to_string`, `{value}`) -/
@@ -155,10 +162,15 @@ def V.json : V → TStr
   | .none => ofData "null"
   | .undef => ofData "null"
   | .seq xs => ofTmpl "[" ++ V.jsonL xs ++ ofTmpl "]"
+  | .map kvs => ofTmpl "{" ++ V.jsonM kvs ++ ofTmpl "}"
 def V.jsonL : List V → TStr
   | [] => []
   | [x] => x.json
   | x :: y :: xs => x.json ++ ofTmpl "," ++ V.jsonL (y :: xs)
+def V.jsonM : List (String × V) → TStr
+  | [] => []
+  | [(k, v)] => jsonStr (ofData k) ++ ofTmpl ":" ++ v.json
+  | (k, v) :: q :: kvs => jsonStr (ofData k) ++ ofTmpl ":" ++ v.json ++ ofTmpl "," ++ V.jsonM (q :: kvs)
 end
 
 /-- `write_with_html_escaping`: strings through the pre-filter and the escaper; undefined, none,
@@ -167,6 +179,7 @@ end
 def writeHtml : V → TStr
   | .str s _ => escapeStr s
   | .seq xs => htmlEscape (V.seq xs).display
+  | .map kvs => htmlEscape (V.map kvs).display
   | v => v.display
 
 /-- `write_escaped` -/
@@ -186,10 +199,14 @@ mutual
 def V.Inv : V → Prop
   | .str s safe => safe = true → Clean s
   | .seq xs => V.InvL xs
+  | .map kvs => V.InvM kvs
   | _ => True
 def V.InvL : List V → Prop
   | [] => True
   | x :: xs => x.Inv ∧ V.InvL xs
+def V.InvM : List (String × V) → Prop
+  | [] => True
+  | (_, v) :: kvs => v.Inv ∧ V.InvM kvs
 end
 
 /-! ## `StringInput` (`value/argtypes.rs`) -/
@@ -370,7 +387,21 @@ def elemF (k : Nat) : Fn
 def charsF : Fn
   | [.str s _] => some (.seq (s.map fun c => .str [c] false))
   | [.seq xs] => some (.seq xs)
+  | [.map kvs] => some (.seq (kvs.map fun kv => .str (ofData kv.1) false))
   | [.undef] => some (.seq [])
+  | [.none] => some (.seq [])
+  | _ => Option.none
+
+/-- `v.key`, `v[key]`, `v|attr(key)` on a map -/
+def attrF (key : String) : Fn
+  | [.map kvs] => some ((kvs.lookup key).getD .undef)
+  | [.undef] => Option.none
+  | [_] => some .undef
+  | _ => Option.none
+
+/-- `items`: pairs `[key, value]` -/
+def itemsF : Fn
+  | [.map kvs] => some (.seq (kvs.map fun kv => .seq [.str (ofData kv.1) false, kv.2]))
   | _ => Option.none
 
 /-- `|safe` (also `Value::from_safe_string` done by the host) — *excluded from the fragment* -/
@@ -423,6 +454,7 @@ def truthy : V → Bool
   | .int n => n != 0
   | .bool b => b
   | .seq xs => !xs.isEmpty
+  | .map kvs => !kvs.isEmpty
   | _ => false
 
 /-- `default(value, other = "", lax = false)` -/
@@ -440,6 +472,7 @@ def stringF : Fn
 def lengthF : Fn
   | [.str s _] => some (.int s.length)
   | [.seq xs] => some (.int xs.length)
+  | [.map kvs] => some (.int kvs.length)
   | _ => Option.none
 
 /-- `replace(value, from, to)` -/
@@ -473,6 +506,9 @@ def joinSafe (m : Mode) (items : List V) (joiner : TStr) : TStr :=
 def iterItems : V → Option (List V)
   | .seq xs => some xs
   | .str s _ => some (s.map fun c => .str [c] false)
+  | .map kvs => some (kvs.map fun kv => .str (ofData kv.1) false)
+  | .undef => some []
+  | .none => some []
   | _ => Option.none
 
 def joinerStr : Option StrIn → TStr
@@ -797,6 +833,10 @@ inductive Step where
   | undef
   /-- list literal / context list -/
   | mkSeq (is : List Nat)
+  /-- map literal -/
+  | mkMap (kis : List (String × Nat))
+  /-- a whole value handed in by the host (context) -/
+  | value (v : V)
   /-- `EmitRaw`: template text -/
   | raw (s : String)
   /-- `Emit` in mode `m` -/
@@ -811,6 +851,17 @@ inductive Step where
 
 def St.args (st : St) (is : List Nat) : Option (List V) := is.mapM (fun i => st.pool[i]?)
 
+/-- insertion into a map kept sorted by key; a repeated key replaces the value -/
+def insertKV (k : String) (v : V) : List (String × V) → List (String × V)
+  | [] => [(k, v)]
+  | (k', v') :: rest =>
+    if k < k' then (k, v) :: (k', v') :: rest
+    else if k = k' then (k, v) :: rest
+    else (k', v') :: insertKV k v rest
+
+def St.kvArgs (st : St) (kis : List (String × Nat)) : Option (List (String × V)) :=
+  kis.mapM (fun ki => (st.pool[ki.2]?).map fun v => (ki.1, v))
+
 def Step.run (st : St) : Step → Option St
   | .data s => some (st.push (.str (ofData s) false))
   | .int n => some (st.push (.int n))
@@ -818,6 +869,8 @@ def Step.run (st : St) : Step → Option St
   | .none => some (st.push .none)
   | .undef => some (st.push .undef)
   | .mkSeq is => (st.args is).map fun xs => st.push (.seq xs)
+  | .mkMap kis => (st.kvArgs kis).map fun kvs => st.push (.map (kvs.foldl (fun acc kv => insertKV kv.1 kv.2 acc) []))
+  | .value v => some (st.push v)
   | .raw s => some (st.write (ofTmpl s))
   | .emit m i => (st.pool[i]?).map fun v => st.write (writeEscaped m v)
   | .beginCapture => some { st with caps := [] :: st.caps }
